@@ -28,7 +28,10 @@
    (id, kind, value) with kind 1 ADD, 2 UPDATE, 3 REMOVE, 4 REPLACE as in types.ChangeType. *)
 From SC Require Import Base.Prelude Bus.Bus.
 
-Record msg := mkM { m_id : Z; m_kind : Z; m_val : Z }.
+(* m_old: the change's OldValue (0 = nil, as m_val = 0 for the new value of a REMOVE); only the
+   filters of the Collection.Pull forwarder (Bus/PipeHeld.v) read it *)
+Record msg := mkMo { m_id : Z; m_kind : Z; m_val : Z; m_old : Z }.
+Definition mkM (id k v : Z) : msg := mkMo id k v 0.
 
 Inductive stage :=
 | StAfter (cur : option msg)                   (* changesAfter: the change it is handing on *)
@@ -80,6 +83,13 @@ Definition merge_kind (a b : Z) : option Z :=
   else if a =? 3 then (if b =? 3 then Some 3 else Some 4)
   else Some b.
 
+(* mergeChanges on the old value: ADD then UPDATE/REPLACE is an ADD (old = nil); after UPDATE,
+   REPLACE, REMOVE the old value of the pending change is kept *)
+Definition merge_old (ka kb olda oldb : Z) : Z :=
+  if ka =? 1 then (if (kb =? 2) || (kb =? 4) then 0 else oldb)
+  else if (ka =? 2) || (ka =? 4) || (ka =? 3) then olda
+  else oldb.
+
 Fixpoint find_id (id : Z) (q : list msg) : option msg :=
   match q with [] => None | m :: r => if m_id m =? id then Some m else find_id id r end.
 Fixpoint remove_id (id : Z) (q : list msg) : list msg :=
@@ -91,7 +101,7 @@ Definition merge_in (q : list msg) (m : msg) : list msg :=
   | Some old =>
       match merge_kind (m_kind old) (m_kind m) with
       | None => remove_id (m_id m) q
-      | Some k => remove_id (m_id m) q ++ [mkM (m_id m) k (m_val m)]
+      | Some k => remove_id (m_id m) q ++ [mkMo (m_id m) k (m_val m) (merge_old (m_kind old) (m_kind m) (m_old old) (m_old m))]
       end
   end.
 
